@@ -13,9 +13,12 @@ W1 = {"stakers": 2, "operators": 2, "assets": ["lst"], "holdops": ["o1"],
 W2 = {"stakers": 3, "operators": 3, "assets": ["nat", "lst", "nst"], "holdops": ["o1"],
       "scales": ["1", "1000003", "700000000000000003"], "blocksPer": 5, "modelPrec": 100}
 
+W1P = dict(W1, path="precompile", scales=["1", "1000003"])
+
 # generation profiles: (MC module, generation cfg, harness world, behaviours quick / thorough)
 WORLDS = {
     "lst2x2": dict(module="MC_Ledger_q.tla", gencfg="MC_Ledger_gen.cfg", hcfg=W1, nq=40, nt=600),
+    "lst2x2-precompile": dict(module="MC_Ledger_q.tla", gencfg="MC_Ledger_gen.cfg", hcfg=W1P, nq=20, nt=300),
     "w2all": dict(module="MC_Ledger_w2.tla", gencfg="MC_Ledger_gen_w2all.cfg", hcfg=W2, nq=25, nt=400),
     "w2slash": dict(module="MC_Ledger_w2.tla", gencfg="MC_Ledger_gen_w2slash.cfg", hcfg=W2, nq=15, nt=300),
     "w2slash2": dict(module="MC_Ledger_w2.tla", gencfg="MC_Ledger_gen_w2slash2.cfg", hcfg=W2, nq=15, nt=300),
@@ -33,8 +36,8 @@ LEADS = [("MC_Ledger_t.tla", "MC_Ledger_lead_atomic.cfg", W3)]
 # goal (named branch of the transcription, Ledger!Goals) -> (module, cfg, harness world)
 W4 = {"stakers": 2, "operators": 2, "assets": ["nat", "lst"], "holdops": ["o1"],
       "scales": ["1", "1000003"], "blocksPer": 5, "modelPrec": 100}
-GOALS = [("MC_Ledger_goalA.tla", "MC_Ledger_goal_A.cfg", W1), ("MC_Ledger_goalA.tla", "MC_Ledger_goal_A2.cfg", W1),
-         ("MC_Ledger_goalB.tla", "MC_Ledger_goal_B.cfg", W3), ("MC_Ledger_n.tla", "MC_Ledger_goal_N.cfg", W4)]
+GOALS = [("MC_Ledger_goalA.tla", "MC_Ledger_goal_A.cfg", [W1, W1P]), ("MC_Ledger_goalA.tla", "MC_Ledger_goal_A2.cfg", [W1]),
+         ("MC_Ledger_goalB.tla", "MC_Ledger_goal_B.cfg", [W3]), ("MC_Ledger_n.tla", "MC_Ledger_goal_N.cfg", [W4])]
 
 ALL_GOALS = """dep_ok wd_ok wd_over_balance_within_total wd_within_balance_over_total del_first_into_pool del_skewed_rate del_self
 del_native del_again_after_empty del_top_up del_with_codelegator del_over_withdrawable und_partial und_full_exit_others_remain
@@ -71,6 +74,7 @@ def _run(tier, seed, harness, d):
     res = {"family": "ledger", "mc": [], "tags": [], "samples": [], "tag_universe": TAG_UNIVERSE,
            "assumptions": ["entry points driven at keeper level on a CacheContext of a full ExocoreApp (ctx-mode)",
                            "dogfood hold placement abstracted as HOLDOPS; holds released by DecrementUndelegationHoldCount",
+                           "precompile worlds: assets/delegation precompile Run with the gateway as caller (no revert on false); the precompiles hold a copy of the delegation keeper without hooks (HOOKED = FALSE)",
                            "every undelegation request carries a fresh (nonce, tx hash) pair (FRESH = TRUE)"]}
     # 1. exhaustive model check (pure TLA+ numbers: no override in this directory)
     dm = os.path.join(d, "mc")
@@ -101,7 +105,7 @@ def _run(tier, seed, harness, d):
     def run_chunk(job):
         wname, ci, behs = job
         w = worlds[wname]
-        dt = os.path.join(d, f"trace-{wname}-{ci}")
+        dt = os.path.join(d, f"trace-{wname}-{ci}".replace(":", "_"))
         os.makedirs(dt)
         vlib.stage_specs(dt, with_override=True)
         cpath = os.path.join(dt, "beh.ndjson")
@@ -126,7 +130,7 @@ def _run(tier, seed, harness, d):
         return cfg, hcfg, r, st
 
     def goal(item):
-        module, cfg, hcfg = item
+        module, cfg, hcfgs = item
         dl = os.path.join(d, "goal-" + cfg)
         os.makedirs(dl)
         vlib.stage_specs(dl, with_override=False)
@@ -140,7 +144,7 @@ def _run(tier, seed, harness, d):
             if line.startswith('"GOAL '):
                 g, beh = json.loads(line)[5:].split(" ", 1)
                 found.setdefault(g, set()).add(beh)
-        return cfg, hcfg, found, st
+        return cfg, hcfgs, found, st
 
     worlds = dict(WORLDS)
     with cf.ThreadPoolExecutor(max_workers=par) as ex:
@@ -157,13 +161,14 @@ def _run(tier, seed, harness, d):
                 worlds[wname] = dict(hcfg=hcfg)
                 jobs.append((wname, 0, [json.dumps(r[1])]))
         res["goal_runs"] = []
-        for cfg, hcfg, found, st in goals:
-            wname = "goal:" + cfg
-            worlds[wname] = dict(hcfg=hcfg)
+        for cfg, hcfgs, found, st in goals:
             behs = sorted({b for bs in found.values() for b in sorted(bs)[:2]})
-            res["goal_runs"].append({"cfg": cfg, "goals_reached": sorted(found), "behaviours": len(behs), "states": st["distinct"]})
-            for ci in range(0, len(behs), chunk):
-                jobs.append((wname, ci, behs[ci:ci + chunk]))
+            res["goal_runs"].append({"cfg": cfg, "goals_reached": sorted(found), "behaviours": len(behs), "states": st["distinct"], "worlds": len(hcfgs)})
+            for wi, hcfg in enumerate(hcfgs):
+                wname = f"goal:{cfg}:{wi}"
+                worlds[wname] = dict(hcfg=hcfg)
+                for ci in range(0, len(behs), chunk):
+                    jobs.append((wname, ci, behs[ci:ci + chunk]))
         for wname, behs in gens:
             for ci in range(0, len(behs), chunk):
                 jobs.append((wname, ci, behs[ci:ci + chunk]))
